@@ -1,0 +1,6 @@
+//go:build verif
+
+package observation
+
+// VerifSize reports the number of registered observations (verification harness only).
+func (h *Handler[C]) VerifSize() int { return h.observations.Length() }
